@@ -188,7 +188,7 @@ theorem parseFsElem_TI {K : Consts} {ts : TypeSystem} {tsIdx : Nat} {n0 : Nat} {
   unfold parseFsElem at h
   simp only [bind] at h
   obtain ⟨t, ht, h⟩ := bind_ok h
-  have hndt := hnd t ht
+  have hndt := hnd t (getType_of_getTypeExact ht)
   -- the end of the function, once the keyword arguments are known
   have fin : ∀ (acc : Heap × List (String × Val)) (idV : Int), KInv K t hp acc →
       ((construct t tsIdx (some idV) acc.2).bind fun o => pure (acc.1 ++ [o], idV, List.length acc.1)) =
@@ -201,7 +201,7 @@ theorem parseFsElem_TI {K : Consts} {ts : TypeSystem} {tsIdx : Nat} {n0 : Nat} {
     rw [he]
     refine ⟨(hti.append ext hid).snoc o ?_, by rw [List.append_assoc]; exact Later.append hp _⟩
     intro t' ht' f hf b hb
-    rw [hty, getType_name ht] at ht'
+    rw [hty, getType_name (getType_of_getTypeExact ht)] at ht'
     cases ht'
     have hv := hslots f.name _ hb
     have hkw : alistGet? acc.2 f.name = some (.ref b) := by
